@@ -86,7 +86,7 @@ int main(void)
 	CONST(TLS_record_change_cipher_spec);
 	CONST(X509_cert_server_auth); CONST(X509_cert_client_auth); CONST(X509_cert_server_key_encipher);
 	CONST(X509_cert_client_key_encipher); CONST(X509_cert_ca); CONST(X509_cert_root_ca); CONST(X509_cert_crl_sign);
-	CONST(X509_version_v3); CONST(X509_version_v1);
+	CONST(X509_version_v3); CONST(X509_version_v1); CONST(X509_cert_chain_server); CONST(X509_cert_chain_client);
 	CONST(SM2_MAX_PLAINTEXT_SIZE); CONST(SM2_MAX_SIGNATURE_SIZE); CONST(SM2_MAX_CIPHERTEXT_SIZE);
 	CONST(SM2_MAX_ID_LENGTH); CONST(SM2_signature_typical_size);
 	CONST(SM9_SIGNATURE_SIZE); CONST(SM9_MAX_PLAINTEXT_SIZE); CONST(SM9_MAX_CIPHERTEXT_SIZE);
